@@ -135,7 +135,11 @@ def check_angle(acc: core.Acc, p: float, y: float, r: float, vec_forms: bool) ->
         for comp in ang:
             if not (0.0 <= comp < 360.0):
                 acc.fail('to_angle_range', case, f'{cls.__name__}.from_angle{p, y, r}.to_angle() = {ang!r} outside [0,360)')
-        inv = rows(mm.inverse())
+        try:
+            inv = rows(mm.inverse())
+        except Exception as exc:  # noqa: BLE001
+            acc.fail('inverse_raises', case, f'{cls.__name__}.from_angle{p, y, r}.inverse() raised {type(exc).__name__}: {exc} on a proper rotation')
+            continue
         tr = rows(mm.transpose())
         if mdiff(inv, tr) > 1e-9:
             acc.fail('inverse_not_transpose', case, f'{cls.__name__}.from_angle{p, y, r}: inverse() and transpose() differ by {mdiff(inv, tr):g}')
@@ -337,20 +341,29 @@ def lattice_g3():
     return itertools.product(vals, vals, vals)
 
 
+def guarded(acc: core.Acc, fn, case: dict, *args) -> None:
+    try:
+        fn(acc, *args)
+    except AssertionError:
+        raise
+    except Exception as exc:  # noqa: BLE001 - the library raised where the algebra is total
+        acc.fail('library_raised', case, f'{fn.__name__}{args}: {type(exc).__name__}: {exc}', exc=type(exc).__name__)
+
+
 def shard(spec) -> core.Acc:
     acc = core.Acc()
     kind = spec[0]
     if kind == 'angles':
         for (p, y, r) in spec[1]:
-            check_angle(acc, p, y, r, True)
+            guarded(acc, check_angle, {'angle': [p, y, r]}, p, y, r, True)
         acc.sample({'angle': list(spec[1][0])}, 1)
     elif kind == 'pairs':
         a_list, b_list = spec[1], spec[2]
         for a in a_list:
-            check_self_alias(acc, a)
+            guarded(acc, check_self_alias, {'self_alias': list(a)}, a)
             for b in b_list:
-                check_pair(acc, a, b)
-                check_mutated_reuse(acc, a, b)
+                guarded(acc, check_pair, {'a': list(a), 'b': list(b)}, a, b)
+                guarded(acc, check_mutated_reuse, {'reuse_a': list(a), 'reuse_b': list(b)}, a, b)
         acc.sample({'a': list(a_list[0]), 'b': list(b_list[0])}, 1)
     return acc
 
@@ -382,11 +395,11 @@ def run(ctx: core.Ctx) -> None:
 def replay(case: dict) -> list:
     acc = core.Acc()
     if 'reuse_a' in case:
-        check_mutated_reuse(acc, tuple(case['reuse_a']), tuple(case['reuse_b']))
+        guarded(acc, check_mutated_reuse, case, tuple(case['reuse_a']), tuple(case['reuse_b']))
     elif 'self_alias' in case:
-        check_self_alias(acc, tuple(case['self_alias']))
+        guarded(acc, check_self_alias, case, tuple(case['self_alias']))
     elif 'angle' in case:
-        check_angle(acc, *case['angle'], True)
+        guarded(acc, check_angle, case, *case['angle'], True)
     else:
-        check_pair(acc, tuple(case['a']), tuple(case['b']))
+        guarded(acc, check_pair, case, tuple(case['a']), tuple(case['b']))
     return acc.all_failures()
